@@ -16,6 +16,7 @@ def run(ctx):
     lib_order.comparators(ctx, P)
     lib_order.sorter_keys(ctx, P)
     lib_order.bookmark_cursor(ctx, P)
+    lib_order.memcpy_alias(ctx, P)
     lib_schema.argname(ctx, P, tus=("tables",))
     lib_schema.row_forwarding(ctx, P, tus=("tables",))
     lib_gate.gate(ctx, P, only={"tsk_table_collection_sort", "tsk_table_collection_canonicalise", "tsk_table_collection_build_index",
